@@ -239,6 +239,39 @@ def adder(rep, body):
     return add
 
 
+def is_ok_unit(e):
+    return e[0] == "adt" and path_endswith(e[1], "Result") and e[2] == "Ok"
+
+
+def waiter_success_sends(facts, rep, adt, field, guard, rule, desc):
+    """Every `OneshotSender::send(Ok(..))` whose sender comes from the waiter list `adt.field` (or is the
+    function's own sender parameter that is otherwise pushed onto that list) must be unreachable
+    without a guard edge (guard(expr, outcome, ce) as for FnCtx.reach_avoiding)."""
+    n = 0
+    for b in facts.bodies.values():
+        if not b.is_fn_like() or not b.touches_field(adt, field):
+            continue
+        fc = FnCtx(b)
+        sends = []
+        for bb, t in fc.calls("OneshotSender::send"):
+            if len(t.args) == 2 and is_ok_unit(fc.arg(t, 1)):
+                recv = fc.arg(t, 0)
+                from_list = E.mentions_field(recv, field)
+                stored = False
+                if recv[0] == "param":
+                    for b2, t2 in fc.calls("Vec::push"):
+                        if E.mentions_field(fc.arg(t2, 0), field) and E.same(fc.arg(t2, 1), recv):
+                            stored = True
+                if from_list or stored:
+                    sends.append((bb, t))
+        found = fc.reach_avoiding([bb for bb, _ in sends], guard)
+        for bb, t in sends:
+            n += 1
+            rep.add(rule, b.sname, desc, bb not in found,
+                    "success reachable without the required test; witness blocks %s" % (found.get(bb),), b.loc(t.line))
+    return n
+
+
 def nonempty_range_exit_edges(fc):
     """For `for x in a..n` loops whose range is provably non-empty at loop entry (interval analysis of
     the branch conditions on n), the edges (switch-block -> None-target) that leave the loop: with the
